@@ -211,3 +211,26 @@ Theorem C10_dippr_reference_state : forall (n : R) (r : dippr_record) (V N : R),
   N / V = / D_T0 -> mu_ig D_T0 V (dippr_comp n r) N = 0.
 Proof. exact dippr_reference_state. Qed.
 Print Assumptions C10_dippr_reference_state.
+
+(** ** 8. DFT profiles: the local ideal-gas Helmholtz energy density added for Contributions::Total *)
+Theorem C10_dft_ideal_is_bulk : forall (T : R) (cs : list icomp), positive cs -> dft_ideal_density T cs = A_ig T 1 cs.
+Proof. exact dft_ideal_is_bulk. Qed.
+Print Assumptions C10_dft_ideal_is_bulk.
+
+Theorem C10_dft_ideal_entropy_density : forall (T : R) (cs : list icomp), 0 < T -> all_ok cs -> positive cs ->
+  is_derive (fun t => dft_ideal_density t cs) T (dA_dT T 1 cs).
+Proof. exact dft_ideal_entropy_density. Qed.
+Print Assumptions C10_dft_ideal_entropy_density.
+
+Theorem C10_A_ig_extensive : forall (T V k : R) (cs : list icomp), 0 < V -> 0 < k -> nonneg cs ->
+  A_ig T (k * V) (map (scale_n k) cs) = k * A_ig T V cs.
+Proof. exact A_ig_extensive. Qed.
+Print Assumptions C10_A_ig_extensive.
+
+(** the per-component form differs from a form with one logarithm of the total density by the ideal entropy of mixing *)
+Theorem C10_dft_ideal_mixing_term : forall (T : R) (cs : list icomp), positive cs -> 0 < Ntot cs ->
+  dft_ideal_density T cs
+  - (sumf (fun c => ic_lam c T * ic_n c) cs + Ntot cs * (ln (Ntot cs) - 1)) * T
+  = T * sumf (fun c => ic_n c * ln (ic_n c / Ntot cs)) cs.
+Proof. exact dft_ideal_mixing_term. Qed.
+Print Assumptions C10_dft_ideal_mixing_term.
